@@ -86,9 +86,11 @@ HARNESSES['valve_default_payload'] = {'module': 'verif_req_valve.rs', 'target': 
     'what': 'Info -> "Source Engine Query\\0", Players / Rules -> FF FF FF FF; request codes 0x54 0x55 0x56 (complete: three variants)'}
 HARNESSES['gs3_request_packet_to_bytes'] = {'module': 'verif_req_gs3.rs', 'target': 'protocols::gamespy::three::RequestPacket::to_bytes',
     'what': 'header BE, kind, session id BE, optional challenge BE (whatever its value, negative included), optional payload (complete: loop-free, all field values)'}
+HARNESSES['mc_as_string_multibyte'] = {'module': 'verif_core.rs', 'target': 'games::minecraft::types::as_string',
+    'what': 'length prefix of a Minecraft string is the UTF-8 byte length (one 2-byte character in the sample)', 'bounded': True, 'bound': 'one sample string'}
 for _n in ('firstreq_selftest_wrong_byte', 'firstreq_selftest_wrong_port'):
     HARNESSES[_n] = {'module': 'verif_firstreq.rs', 'target': 'vacuity guard', 'what': 'a first-request harness with a deliberately wrong expectation is refuted (kani::should_panic)'}
 SETS['C09'] = [h for h in FIRSTREQ if h != 'firstreq_minecraft_java'] + ['firstreq_selftest_wrong_byte', 'firstreq_selftest_wrong_port', 'master_construct_payload',
-               'valve_packet_to_bytes', 'valve_default_payload', 'gs3_request_packet_to_bytes']
+               'valve_packet_to_bytes', 'valve_default_payload', 'gs3_request_packet_to_bytes', 'mc_as_string_multibyte']
 DYNAMIC = {'C14': 'gen_defs'}
 BATCH = {"C14": 16}
